@@ -17,7 +17,7 @@ func RunAll(w *load.World, c *core.Collector) {
 	ItemFlags(w, c)
 	Pair(w, c)
 	DocFlow(w, c)
-	Degree(w, c)
+	GraphOrdering(w, c)
 	Enum(w, c)
 	Limits(w, c)
 	Tagged(w, c)
@@ -28,6 +28,7 @@ func RunAll(w *load.World, c *core.Collector) {
 	Sorted(w, c)
 	Rank(w, c)
 	Merge(w, c)
+	QDist(w, c)
 	Transfer(w, c)
 	Quota(w, c)
 	Lifecycle(w, c)
